@@ -1257,6 +1257,11 @@ class FnTranslator:
                     raise TransError('reversed slice store at line %d' % st.lineno)
                 val = self.coerce(self.expr(st.value, env), Q)
                 nm = targets[0].value.id
+                # ownership (C11): a write through a subscript is only accepted on an array that this
+                # function made itself (x = y.copy() / np.pad(...) / a fresh result), never on a caller's array
+                if nm not in getattr(self, 'owned', set()):
+                    raise TransError('in-place store into caller-owned array %s (no copy before the write) at line %d'
+                                     % (nm, st.lineno))
                 return self.with_binds(binds + val.binds, "(let %s := v_store3 %s %s %s in\n %s)" % (
                     vname(nm), ' '.join('(%s, %s)' % b for b in bounds), val.code, vname(nm), cont(env)))
             if isinstance(targets[0], ast.Name) and self.self_path(st.value, env) is not None \
@@ -1265,6 +1270,18 @@ class FnTranslator:
                 env2[targets[0].id] = ('selfpath', self.self_path(st.value, env))
                 return cont(env2)
             e = self.expr(st.value, env)
+            if isinstance(targets[0], ast.Name):
+                if not hasattr(self, 'owned'):
+                    self.owned = set()
+                v = st.value
+                fresh_call = isinstance(v, ast.Call) and (
+                    (isinstance(v.func, ast.Attribute) and v.func.attr in ('copy', 'astype'))
+                    or (isinstance(v.func, ast.Attribute) and isinstance(v.func.value, ast.Name)
+                        and v.func.value.id == 'np' and v.func.attr in ('pad', 'zeros_like', 'ones_like', 'full_like', 'copy', 'array')))
+                if fresh_call:
+                    self.owned.add(targets[0].id)
+                elif e.ty == ARR:
+                    self.owned.discard(targets[0].id)
             pat, env2 = self.assign_pattern(targets[0], e, env)
             if e.binds and e.binds[-1][0] == e.code:
                 # x = f(...) with f monadic: bind the result directly to the target pattern
